@@ -179,8 +179,9 @@ def Divlu64Spec : Prop := ∀ (u : U128) (n : W), n ≠ 0#64 → u.hi.toNat < n.
     (divmod128by64 u n (clz n)).1.toNat = u.toNat / n.toNat ∧
     (divmod128by64 u n (clz n)).2.toNat = u.toNat % n.toNat
 
-/-- contract of the estimate-and-correct branch of `divmod128by128` (divisor wider than one word) -/
-def Div128Spec : Prop := ∀ (u n : U128), n.hi ≠ 0#64 → n.toNat < u.toNat →
+/-- contract of the estimate-and-correct branch of `divmod128by128` (divisor wider than one word), for EVERY dividend
+    (the dispatch only sends dividends greater than the divisor; the kernel does not need that) -/
+def Div128Spec : Prop := ∀ (u n : U128), n.hi ≠ 0#64 →
     (divmod128by128 u n (clz n.hi) 0).1.toNat = u.toNat / n.toNat ∧
     (divmod128by128 u n (clz n.hi) 0).2.toNat = u.toNat % n.toNat
 
@@ -312,7 +313,7 @@ theorem kernelOK_of_specs (h64 : Divlu64Spec) (h128 : Div128Spec) (hbin : DivBin
     rw [toNat_of_hi_zero n hh]
     exact this
   · simp only [hh, if_false]
-    exact h128 u n hh hgt
+    exact h128 u n hh
 
 /-- **DivMod is floor division with remainder**, given the contracts of the three kernels -/
 theorem divMod_correct (h64 : Divlu64Spec) (h128 : Div128Spec) (hbin : DivBinSpec) (u n : U128)
